@@ -1,0 +1,100 @@
+//go:build verif
+
+package pedersencom
+
+// Contracts for the deductive checker in /verif (comment-only; compiled only under the verif tag).
+// Group elements E are bound to the abstract abelian group with scalar action ("group"): gadd, gsmul, gneg.
+// Functions marked purefn are deterministic functions of their arguments.
+
+//@ func NewCommitment
+//@   property C18
+//@   bind E group
+//@   purefn
+//@   ensures (err == nil) == !utils.IsNil(v)
+//@   ensures err == nil ==> result != nil && result.v == v
+
+//@ func NewWitness
+//@   property C18
+//@   purefn
+//@   ensures (err == nil) == !utils.IsNil(v)
+//@   ensures err == nil ==> result != nil && result.r == v
+
+//@ func NewMessage
+//@   property C18
+//@   purefn
+//@   ensures (err == nil) == !utils.IsNil(v)
+//@   ensures err == nil ==> result != nil && result.m == v
+
+//@ func (*Commitment).Value
+//@   property C18
+//@   bind E group
+//@   purefn
+//@   ensures result == c.v
+
+//@ func (*Message).Value
+//@   property C18
+//@   purefn
+//@   ensures result == m.m
+
+//@ func (*Witness).Value
+//@   property C18
+//@   purefn
+//@   ensures result == w.r
+
+// Two commitments are equal exactly when their group elements are.
+//@ func (*Commitment).Equal
+//@   property C18
+//@   bind E group
+//@   purefn
+//@   ensures (c == nil || other == nil) ==> result == (c == other)
+//@   ensures (c != nil && other != nil) ==> result == (c.v == other.v)
+
+// The commitment to m with witness r is exactly [m]g + [r]h.
+//@ func (*CommitmentKey).CommitWithWitness
+//@   property C18
+//@   bind E group
+//@   purefn
+//@   ensures (message == nil || witness == nil) ==> err != nil
+//@   ensures err == nil ==> result != nil && result.v == gadd(gsmul(message.m, k.g), gsmul(witness.r, k.h))
+
+// Opening accepts exactly the commitments whose value is [m]g + [r]h for the presented message and witness.
+//@ func (*CommitmentKey).Open
+//@   property C18
+//@   bind E group
+//@   purefn
+//@   ensures (result == nil && commitment != nil) ==> commitment.v == gadd(gsmul(message.m, k.g), gsmul(witness.r, k.h))
+//@   ensures (commitment != nil && message != nil && witness != nil && res(k.CommitWithWitness(message, witness), 1) == nil && commitment.v != gadd(gsmul(message.m, k.g), gsmul(witness.r, k.h))) ==> result != nil
+
+// Homomorphisms.
+//@ func (*CommitmentKey).CommitmentOpInv
+//@   property C18
+//@   bind E group
+//@   ensures err == nil ==> result != nil && result.v == gneg(c.v)
+
+//@ func (*CommitmentKey).CommitmentScalarOp
+//@   property C18
+//@   bind E group
+//@   ensures err == nil ==> result != nil && result.v == gsmul(scalar, c.v)
+
+//@ func (*CommitmentKey).ReRandomise
+//@   property C18
+//@   bind E group
+//@   ensures err == nil ==> result != nil && result.v == gadd(c.v, gsmul(witnessShift.r, k.h))
+
+//@ func (*CommitmentKey).Shift
+//@   property C18
+//@   bind E group
+//@   ensures err == nil ==> result != nil && result.v == gadd(c.v, gsmul(message.m, k.g))
+
+// Two keys are equal exactly when both generators are.
+//@ func (*CommitmentKey).Equal
+//@   property C18
+//@   bind E group
+//@   purefn
+//@   ensures (k != nil && other != nil) ==> result == (k.g == other.g && k.h == other.h)
+
+// A key is only ever built from two distinct non-identity generators.
+//@ func NewCommitmentKeyUnchecked
+//@   property C18
+//@   bind E group
+//@   ensures err == nil ==> result != nil && result.g == g && result.h == h && g != h && g != gzero() && h != gzero()
